@@ -102,6 +102,9 @@ def run(chk):
     # 2. images 1.0 / 1.1 and rpms 0.1-0.3 (generated older documents; model agreement is part of C10's suites)
     other = [{"fmt": "images", "text": json.dumps(DL.gen_images_doc(rng, R, version=v))} for v in ["1.0", "1.1"] for _ in range(N[chk.tier] // 2)]
     other += [{"fmt": "rpms", "text": json.dumps(DL.gen_rpms_doc(rng, R, version=v))} for v in ["0.3", "0.2"] for _ in range(N[chk.tier] // 2)]
+    # ... and the same documents against the model readers with the re-filing oracle (shared with C10): faithful mapping
+    from props import C10 as P10
+    P10.legacy_suites(chk, rng, R, set(R["RPM_ARCHES"]), N[chk.tier])
     # 3. treeinfo 1.1 / 1.0 (down-converted tables) and pre-productmd [general]-only trees
     tconts = [{"content": DT.gen_treeinfo(rng, R)} for _ in range(N[chk.tier])]
     ir = core.ImplRunner("docs_corrupt", fn="impl_valid_treeinfo", per_case_timeout=20.0)
